@@ -630,7 +630,9 @@ func (h *httpServerHandler) handleGet(ctx context.Context, w http.ResponseWriter
 
 	// Clean up connection
 	h.getSSEConnectionsLock.Lock()
-	delete(h.getSSEConnections, session.GetID())
+	if h.getSSEConnections[session.GetID()] == conn {
+		delete(h.getSSEConnections, session.GetID())
+	}
 	verifEvent("get.cleaned", r)
 	h.getSSEConnectionsLock.Unlock()
 	h.logger.Infof("GET SSE connection closed, session ID: %s", session.GetID())
